@@ -111,7 +111,10 @@ def get_text_from(path, encoding=None) -> str:
                 # All of the bytes weren't decodeable, maybe the initial
                 # sequence is (as above)?
                 path.seek(position)  # Reset after the previous .read():
-                s = decode_by_char(path)
+                # A text stream decodes whole blocks at a time and loses
+                # the good characters of a block with a bad byte in it,
+                # so read the bytes that it sits on, if they can be had.
+                s = decode_by_char(getattr(path, "buffer", path))
 
         else:
             # Not a path, not an already-opened file.
